@@ -19,9 +19,10 @@
 using namespace drv;
 namespace cc = cds::container;
 static CdsInit s_init;
-static int g_hash_mode = 0;
+static int g_hash_mode = 0; static size_t g_htab[64];
 size_t drv::item_hash::hash_of(int k) {
   switch (g_hash_mode) { case 1: return 7; case 2: return (size_t)(k % 2); case 3: return ((size_t)k << 60) | ((size_t)(k & 1) << 8) | 5;   // differ only in the top bits / one middle bit
+    case 4: return g_htab[k & 63];   // table set by the program's seth:k:lo:hi operations (hash = hi * 2^32 + lo)
     default: return (size_t)k; } }
 typedef cds::urcu::gc<cds::urcu::general_buffered<cds::urcu::general_buffered<>::buffer_type, std::mutex, cds::backoff::yield>> RCU;
 struct RcuFix { RCU rcu; RcuFix() : rcu(2) { attach(); } ~RcuFix() { detach(); } };
@@ -30,7 +31,8 @@ struct ml_t : public cc::michael_list::traits { typedef drv::qallocator<int> all
 struct ll_t : public cc::lazy_list::traits { typedef drv::qallocator<int> allocator; typedef cds::backoff::yield back_off; typedef item_less less; typedef cds::sync::spin_lock<cds::backoff::yield> lock_type; };
 struct il_t : public cc::iterable_list::traits { typedef drv::qallocator<int> allocator; typedef cds::backoff::yield back_off; typedef item_less less; };
 struct ms_t : public cc::michael_set::traits { typedef item_hash hash; typedef cds::atomicity::item_counter item_counter; typedef drv::qallocator<int> allocator; };
-template <class GC, class S, class Ad, class... A> static void gc_set(const Program& P, size_t nHazard, int hm, A... a) { g_hash_mode = hm; Smr<GC> smr(nHazard, P.threads.size() + 1); { S s(a...); Ad ad(s); run_set_program(P, ad, attach, detach); } }
+static void load_htab(const Program& P) { for (auto& o : P.init) if (o.name == "seth") g_htab[o.arg(0) & 63] = ((size_t)o.arg(2) << 32) | (size_t)o.arg(1); }
+template <class GC, class S, class Ad, class... A> static void gc_set(const Program& P, size_t nHazard, int hm, A... a) { g_hash_mode = hm; load_htab(P); Smr<GC> smr(nHazard, P.threads.size() + 1); { S s(a...); Ad ad(s); run_set_program(P, ad, attach, detach); } }
 template <class S, class Ad, class... A> static void rcu_set(const Program& P, int hm, A... a) { g_hash_mode = hm; RcuFix f; { S s(a...); Ad ad(s); run_set_program(P, ad, attach, detach); } }
 // MichaelHashSet: static bucket table over ordered lists; (max item count, load factor) = (2,1) -> 2 buckets; hash modes force collisions
 typedef cc::MichaelHashSet<HP, cc::MichaelList<HP, Item, ml_t>, ms_t> MS_ML_HP; typedef cc::MichaelHashSet<DHP, cc::MichaelList<DHP, Item, ml_t>, ms_t> MS_ML_DHP;
@@ -66,3 +68,10 @@ DRV_VARIANT(v_fh_hp3, "feldman_hp_h3") { gc_set<HP, FH_HP, FeldmanAd<FH_HP>>(P, 
 DRV_VARIANT(v_fh_dhp3, "feldman_dhp_h3") { gc_set<DHP, FH_DHP, FeldmanAd<FH_DHP>>(P, 6, 3, 4, 2); }
 DRV_VARIANT(v_fh_rcu3, "feldman_rcu_h3") { rcu_set<FH_RCU, FeldmanAd<FH_RCU, true, RCU>>(P, 3, 4, 2); }
 DRV_VARIANT(v_fh_rcu0, "feldman_rcu_h0") { rcu_set<FH_RCU, FeldmanAd<FH_RCU, true, RCU>>(P, 0, 4, 3); }
+// table-driven hash functions (C17: growth keeps the contents for any hash function)
+DRV_VARIANT(v_ms_ml_hp_ht, "michaelset_michael_hp_ht") { gc_set<HP, MS_ML_HP, GcSetAd<MS_ML_HP, 0, C_TRAV>>(P, 4, 4, 2, 1); }
+DRV_VARIANT(v_sl_ml_hp_ht, "splitlist_michael_hp_ht") { gc_set<HP, SL_ML_HP, GcSetAd<SL_ML_HP, 0, C_TRAV>>(P, 8, 4, 1, 1); }
+DRV_VARIANT(v_sl_il_hp_ht, "splitlist_iterable_hp_ht") { gc_set<HP, SL_IL_HP, IterSetAd<SL_IL_HP, 0, C_TRAV>>(P, 10, 4, 1, 1); }
+DRV_VARIANT(v_sl_ml_dhp_ht, "splitlist_michael_dhp_static_ht") { gc_set<DHP, SL_ML_DHP_ST, GcSetAd<SL_ML_DHP_ST, 0, C_TRAV>>(P, 8, 4, 2, 1); }
+DRV_VARIANT(v_fh_hp_ht, "feldman_hp_ht") { gc_set<HP, FH_HP, FeldmanAd<FH_HP>>(P, 6, 4, 4, 2); }
+DRV_VARIANT(v_fh_dhp_ht, "feldman_dhp_ht") { gc_set<DHP, FH_DHP, FeldmanAd<FH_DHP>>(P, 6, 4, 5, 3); }
